@@ -1,13 +1,13 @@
 # The items the translator reads for the tree hash (C22, C10 sha256tree cost).
 # Executed inside extract.py (uses const / pattern / raw).
 
-const("src/treehash.rs", "SHA256TREE_BASE_COST", "sha256treeBaseCost", 270)
-const("src/treehash.rs", "SHA256TREE_PAIR_COST", "sha256treePairCost", 460)
-const("src/treehash.rs", "SHA256TREE_COST_PER_BYTE", "sha256treeCostPerByte", 2)
-const("src/treehash.rs", "NEW_SHA256TREE_COST_PER_BYTE", "newSha256treeCostPerByte", 6)
-const("src/op_utils.rs", "MALLOC_COST_PER_BYTE", "mallocCostPerByte", 10)
+const("src/treehash.rs", "SHA256TREE_BASE_COST", "thBaseCost", 270)
+const("src/treehash.rs", "SHA256TREE_PAIR_COST", "thPairCost", 460)
+const("src/treehash.rs", "SHA256TREE_COST_PER_BYTE", "thCostPerByte", 2)
+const("src/treehash.rs", "NEW_SHA256TREE_COST_PER_BYTE", "thNewCostPerByte", 6)
+const("src/op_utils.rs", "MALLOC_COST_PER_BYTE", "thMallocCostPerByte", 10)
 # `cost += MALLOC_COST_PER_BYTE * 32;` at the end of tree_hash_costed
-pattern("src/treehash.rs", r"cost\s*\+=\s*MALLOC_COST_PER_BYTE\s*\*\s*(\d+)\s*;", "sha256treeMallocBytes", 32,
+pattern("src/treehash.rs", r"cost\s*\+=\s*MALLOC_COST_PER_BYTE\s*\*\s*(\d+)\s*;", "thMallocBytes", 32,
         "tree_hash_costed malloc bytes")
 
 def _precomputed(body):
@@ -36,5 +36,5 @@ if _rows is None:
     # pinned fallback: the table as documented in the source comment, sha256(01) and sha256(01 i), i = 1..36
     import hashlib as _hl
     _rows = [_hl.sha256(b"\x01").hexdigest()] + [_hl.sha256(bytes([1, i])).hexdigest() for i in range(1, 37)]
-raw("precomputedHashes", "List (List Nat)", _table_term(_rows),
+raw("thPrecomputedHashes", "List (List Nat)", _table_term(_rows),
     "src/more_ops.rs PRECOMPUTED_HASHES (row i = hash used for the small atom of value i)")
